@@ -4864,9 +4864,13 @@ fn name_change(original: &str) -> String {
             if absolute_end_pos == first_part.len() - 1 {
                 let num_start = paren_pos + 2; // Skip " ("
                                                // Try to parse the number between parentheses
-                if let Ok(number) = first_part[num_start..absolute_end_pos].parse::<u32>() {
+                if let Some(next) = first_part[num_start..absolute_end_pos]
+                    .parse::<u32>()
+                    .ok()
+                    .and_then(|number| number.checked_add(1))
+                {
                     let base_name = &first_part[..paren_pos];
-                    new_name = label_with_suffix(base_name, &format!(" ({})", number + 1))
+                    new_name = label_with_suffix(base_name, &format!(" ({next})"))
                 }
             }
         }
@@ -4894,9 +4898,13 @@ fn hostname_change(original: &str) -> String {
     // check if there is already a `-<num>` suffix
     if let Some(hyphen_pos) = first_part.rfind('-') {
         // Try to parse everything after the hyphen as a number
-        if let Ok(number) = first_part[hyphen_pos + 1..].parse::<u32>() {
+        if let Some(next) = first_part[hyphen_pos + 1..]
+            .parse::<u32>()
+            .ok()
+            .and_then(|number| number.checked_add(1))
+        {
             let base_name = &first_part[..hyphen_pos];
-            new_name = label_with_suffix(base_name, &format!("-{}", number + 1));
+            new_name = label_with_suffix(base_name, &format!("-{next}"));
         }
     }
 
